@@ -281,6 +281,37 @@ func truncationSweep(w *warm) []c18input {
 		out = append(out, c18input{"ERC20_LOCK.ETHTxn", trait, mk(&ethact.ERC20Lock{Locker: u.Addr, ETHTxn: raw})})
 		out = append(out, c18input{"ETH_LOCK.ETHTxn", trait, mk(&ethact.Lock{Locker: u.Addr, ETHTxn: raw})})
 	}
+	// well-formed token transactions that do not do what the OneLedger message says: sent to the token
+	// contract, but transferring to somebody else than the lock contract, by another method, with no data
+	tok := ethcmn.HexToAddress("0x00000000000000000000000000000000000c0de3")
+	ercLock := ethcmn.HexToAddress("0x00000000000000000000000000000000000c0de2")
+	elsewhere, _ := erc20ABI.Pack("transfer", ethcmn.HexToAddress("0x00000000000000000000000000000000000dead1"), big.NewInt(77))
+	toLock, _ := erc20ABI.Pack("transfer", ercLock, big.NewInt(77))
+	zeroAmt, _ := erc20ABI.Pack("transfer", ercLock, big.NewInt(0))
+	hugeAmt, _ := erc20ABI.Pack("transfer", ercLock, new(big.Int).Lsh(big.NewInt(1), 255))
+	for k, v := range []struct {
+		trait string
+		to    ethcmn.Address
+		data  []byte
+	}{
+		{"token-transfer-to-somebody-else", tok, elsewhere},
+		{"token-transfer-to-the-lock-contract", tok, toLock},
+		{"token-transfer-of-nothing", tok, zeroAmt},
+		{"token-transfer-of-2^255", tok, hugeAmt},
+		{"token-call-without-data", tok, nil},
+		{"token-call-selector-only", tok, elsewhere[:4]},
+		{"token-transfer-with-trailing-bytes", tok, append(append([]byte{}, toLock...), 1, 2, 3)},
+		{"erc-lock-contract-called-with-token-transfer", ercLock, toLock},
+		{"eth-contract-called-with-erc-redeem", w.w.EthContract, ercRedeemData},
+		{"token-called-with-erc-redeem", tok, ercRedeemData},
+		{"erc-lock-contract-called-with-erc-redeem-of-unknown-token", ercLock, func() []byte {
+			d, _ := ercABI.Pack("redeem", big.NewInt(9), ethcmn.HexToAddress("0x00000000000000000000000000000000000dead2"))
+			return d
+		}()},
+		{"erc-lock-contract-called-with-erc-redeem", ercLock, func() []byte { d, _ := ercABI.Pack("redeem", big.NewInt(9), tok); return d }()},
+	} {
+		add(v.trait, sign(types.NewTransaction(uint64(40+k), v.to, big.NewInt(0), 100000, big.NewInt(1), v.data)))
+	}
 	for _, full := range []struct {
 		name string
 		raw  []byte
